@@ -25,6 +25,7 @@ import (
 // of requests and every reply serialises, parses back, re-serialises to the
 // same bytes and carries the same options as the in-memory response.
 type setupCase struct {
+	OtherProto bool `json:"other_proto,omitempty"` // list the plugin under the protocol it does not support
 	V6     bool     `json:"v6"`
 	Plugin string   `json:"plugin"`
 	Args   []string `json:"args"`
@@ -200,6 +201,10 @@ func genSetupVector(rng *rand.Rand, idx int) (plugin string, v6 bool, args []str
 func (setupEngine) Gen(rng *rand.Rand, tier string, i int) any {
 	c := &setupCase{Seed: rng.Int63()}
 	c.Plugin, c.V6, c.Args, _ = genSetupVector(rng, i)
+	switch c.Plugin {
+	case "autoconfigure", "ipv6only", "lease_time", "mtu", "netmask", "range", "router", "staticroute", "prefix":
+		c.OtherProto = rng.Intn(6) == 0
+	}
 	return c
 }
 
@@ -215,7 +220,19 @@ func (setupEngine) Run(ctx *fw.Ctx, cs any) {
 	_, _, _, files := genSetupVector(rand.New(rand.NewSource(1)), -1)
 	job := &ChainJob{HasV4: !c.V6, HasV6: c.V6, Pre: true, Files: files}
 	var desc []string
-	if c.V6 {
+	if c.OtherProto {
+		// the plugin is listed in the section of the protocol it has no setup function for: the loader
+		// skips it with a warning; the rest of the chain (here: sleep 0s) must work
+		job.HasV4, job.HasV6 = c.V6, !c.V6
+		chain := []PlugConf{{c.Plugin, c.Args}, {"sleep", []string{"0s"}}}
+		if c.V6 { // plugin is v6-only -> listed under server4
+			job.V4 = chain
+			job.Reqs, desc = battery4(rng, 12)
+		} else {
+			job.V6 = chain
+			job.Reqs, desc = battery6(rng, 12)
+		}
+	} else if c.V6 {
 		job.V6 = []PlugConf{{c.Plugin, c.Args}}
 		job.Reqs, desc = battery6(rng, 40)
 		if c.Plugin == "prefix" && len(c.Args) > 0 {
@@ -239,6 +256,10 @@ func (setupEngine) Run(ctx *fw.Ctx, cs any) {
 	}
 	out := RunChain(job, ctx.Scratch, 90*time.Second)
 	conf := fmt.Sprintf("%s %q (v6=%v)", c.Plugin, c.Args, c.V6)
+	if c.OtherProto {
+		conf = fmt.Sprintf("%s %q listed under the protocol it does not support, followed by sleep 0s", c.Plugin, c.Args)
+		ctx.Count("setup.vectors_other_protocol", 1)
+	}
 	if len(conf) > 400 {
 		conf = conf[:400] + fmt.Sprintf("...(%d bytes)", len(conf))
 	}
@@ -283,7 +304,11 @@ func (setupEngine) Run(ctx *fw.Ctx, cs any) {
 				ctx.Count("setup.reply_larger_than_a_datagram", 1)
 				continue
 			}
-			if sig, msg := roundTrip(c.V6, b, r); sig != "" {
+			proto6 := c.V6
+			if c.OtherProto {
+				proto6 = !c.V6
+			}
+			if sig, msg := roundTrip(proto6, b, r); sig != "" {
 				ctx.Viol("C19", sig+":"+c.Plugin, "%s was accepted at start-up; reply to {%s}: %s", conf, desc[i], msg)
 			}
 		}
